@@ -185,4 +185,19 @@ theorem C01_f32_linear_envelope_counterexample :
     isF32 33554436 = true ∧ qlinearF .even c 33554436 = 128 ∧ qlinear .even c 33554436 = 127 := by
   refine ⟨by decide +kernel, by decide +kernel, by decide +kernel⟩
 
+/-! ## the same theorems under the module prefix (the audit of `./check C01F` lists `C01F_*`) -/
+
+alias C01F_rnd32_fix := C01_f32_rnd32_fix
+alias C01F_grid := C01_f32_grid
+alias C01F_round_through := C01_f32_round_through
+alias C01F_transfer_bits := C01_f32_transfer_bits
+alias C01F_transfer_bits_alpha := C01_f32_transfer_bits_alpha
+alias C01F_transfer_bits_of_resid := C01_f32_transfer_bits_of_resid
+alias C01F_transfer_relu := C01_f32_transfer_relu
+alias C01F_transfer_relu_all := C01_f32_transfer_relu_all
+alias C01F_transfer_linear := C01_f32_transfer_linear
+alias C01F_bits_envelope_counterexample := C01_f32_bits_envelope_counterexample
+alias C01F_bits_alpha_counterexample := C01_f32_bits_alpha_counterexample
+alias C01F_linear_envelope_counterexample := C01_f32_linear_envelope_counterexample
+
 end QKV
